@@ -558,7 +558,7 @@ func (c *c20Check) Evidence(st Stats, tier string) (map[string]interface{}, []st
 		"samples":                     s.Samples,
 		"startup_runs":                s.Startup,
 		"warm_runs":                   s.Warm,
-		"http_handler_runs": s.HTTP,
+		"http_handler_runs":           s.HTTP,
 		"yield_points_passed":         s.Yields,
 		"switches":                    s.Switches,
 		"tasks_total":                 s.Tasks,
